@@ -1418,4 +1418,20 @@ theorem C10_watcher_before_lock_loses_closing_tag :
     (WdHist.step true { WdHist.init with wdPast := true } .close) =
       ({ WdHist.init with wdPast := true, outClosed := true }, .failed) := by decide
 
+/-! ### Round H: `Serve` ending with a stream error of its own after the output was closed -/
+
+/-- **probe fact**: `Close`, then `Serve` ends with an error it would report to the peer (a handler's
+stream error too large for the encoder's buffer, a small one, a plain handler error, garbage, a large
+stream error received from the peer): the connection sees no write after `Close` returned —
+`sendError` hands nothing to the encoder once the output is closed (`Lts`: an `errSender` that finds
+the bit set leaves at once; `Hist`: `serveReturns` on a closed output adds nothing to the wire). -/
+theorem C10_probe_no_late_stream_error :
+    ∃ t, Generated.C10.lateErrorProbe = some t ∧ t.length = 5 ∧ ∀ r ∈ t, r.2 = 0 :=
+  ⟨_, rfl, by decide, by decide⟩
+
+/-- the model's side, every kind of error ending: on a closed output `Serve`'s end adds nothing -/
+theorem C10_hist_no_late_stream_error (s : Hist.St) (hc : s.outClosed = true) (r : Hist.Ret) :
+    (Hist.serveReturns s r).wire = s.wire := by
+  simp [Hist.serveReturns, Hist.closeOut, hc]
+
 end XmppModel.Props.C10
